@@ -12,7 +12,7 @@ ID = 'C16'
 LEVEL = 'exploration'
 TECHNIQUE = 'bounded-exhaustive enumeration of a log-template grammar x frame states x collect modes on the real handler, against an independent template renderer'
 RULE = ('templates = all sequences of <= 3 segments over {literal "a b", "{{", "}}", {field}} with field in {name, obj.attr, lst[0], d[\'k\'], '
-        's.upper(), len(lst), missing, 1/0, bad (raising __str__)}, and all of <= 2 segments additionally over fields containing : ! or braces '
+        's.upper(), len(lst), missing, 1/0, bad (raising __str__), the empty field, the number 1, fetch() raising an exception whose __str__ fails, next(iter(())) raising one without text}, and all of <= 2 segments additionally over fields containing : ! or braces '
         '(slice, string arguments, !=, lambda, dict display, generator expression over locals); x 3 frame states x {no_collect, collect} ; two hits, fire_count=1; '
         'non-trivial = template has >= 1 field and (a literal/escape or a failing field)')
 ASSUMPTIONS = ['a field is an expression: everything between an unescaped { and its matching } (python format conversions/specs are not part of the statement)',
@@ -25,6 +25,11 @@ class Bad:
 class Obj:
     def __init__(self, v):
         self.attr = v
+class Unprintable(Exception):
+    def __str__(self):
+        return self.args[0]
+def fetch():
+    raise Unprintable(404)
 def target(name, obj, lst, d, s, bad, times):
     for _ in range(times):
         mark = 1
@@ -32,7 +37,7 @@ def target(name, obj, lst, d, s, bad, times):
 '''
 LINE = PROGRAM.split('\n').index('        mark = 1') + 1
 
-FIELDS = ['name', 'obj.attr', 'lst[0]', "d['k']", 's.upper()', 'len(lst)', 'missing', '1/0', 'bad']
+FIELDS = ['name', 'obj.attr', 'lst[0]', "d['k']", 's.upper()', 'len(lst)', 'missing', '1/0', 'bad', '', '1', 'fetch()', 'next(iter(()))']
 # index / call expressions that contain ':' '!' or braces, and nested scopes over the frame's locals (templates of <= 2 segments)
 FIELDS2 = ['lst[0:1]', "d.get('k:v', 'none')", "s.split('!')", "str(name != 'bob')", '(lambda: name)()', " {'k': 1}['k'] ", 'sum(1 for i in lst if i != name)',
            "'a}b'.upper()", "d['k'] if name else '{'"]
@@ -89,7 +94,12 @@ def render(segs, frame_locals, frame_globals):
             try:
                 v = eval(expr, names)      # every name visible at the line is visible to the whole expression (nested scopes too)
             except BaseException as e:
-                parts.append(('err', str(e)))
+                try:
+                    text = str(e)
+                except BaseException:
+                    text = ''
+                # an exception without a text (or with a failing __str__): what stands for it is a don't-care
+                parts.append(('err', text) if text else ('any',))
                 continue
             try:
                 parts.append(('val', str(v)))
